@@ -24,7 +24,7 @@ ASSUMPTIONS = ["matrix entries compared at 1e-12; an absent key means 0", "the l
 HEADLINE = ["histories", "get_ejks_calls", "hook_hits", "matrices_compared", "entries_compared", "repeat_calls", "self_paired_entries", "overall_variant_checks",
             "arbitrary_annotation", "builder_networks", "single_edge_topology", "in_place_rewirings", "scrambled_vertex_order_or_labels", "extractors_with_a_prefix_of_the_names"]
 REQUIRED = {t: {"repeat_calls": 50, "hook_hits": 100, "self_paired_entries": 50, "overall_variant_checks": 50, "arbitrary_annotation": 20,
-                "builder_networks": 20, "single_edge_topology": 5, "in_place_rewirings": 20, "scrambled_vertex_order_or_labels": 30} for t in ("quick", "thorough")}
+                "builder_networks": 20, "single_edge_topology": 5, "in_place_rewirings": 20, "scrambled_vertex_order_or_labels": 30, "overall_variant_hub_graphs": 10} for t in ("quick", "thorough")}
 TOL = 1e-12
 NAMESETS = [["2-clique"], ["2-clique", "3-clique"], ["2-clique-blue", "2-clique-red"], ["a", "b", "c"], ["3-clique", "2-clique"],
             ["x-y", "x-y-z"], ["edge", "triangle", "square"], ["t"]]
@@ -285,7 +285,19 @@ def run_case(case):
                 res.violate("extraction-mutated-the-network", names=names); break
     # overall-degree variant
     if res.verdict == "held":
-        for G, names, kind in graphs:
+        extra = []
+        if rng.random() < 0.15:
+            # scale: adjacent vertices of EQUAL degree beyond 256 (two hubs joined by an edge, a clique of hubs)
+            d = rng.choice([257, 258, 259, 300, 400, 1000])
+            h = rng.choice([2, 2, 3])
+            B = nx.complete_graph(h)
+            nxt = h
+            for hub in range(h):
+                for _ in range(d - (h - 1)):
+                    B.add_edge(hub, nxt); nxt += 1
+            extra.append((B, ["-"], "hubs-of-equal-degree-%d" % d))
+            res.count("overall_variant_hub_graphs")
+        for G, names, kind in graphs + extra:
             if G.number_of_edges() == 0:
                 continue
             got = sut("JointExcessDegree.get_ejk", gcmpy.JointExcessDegree.get_ejk, G)
